@@ -128,7 +128,9 @@ partial def genL (n : Nat) (depth : Nat) (cx : Ctx) (id : Nat) : G (List Stmt) :
     let cases ← (List.range (ncases + 1)).mapM (fun j => do
       return ((j : Int), [Stmt.block (← genL (← rnd 3) (depth - 1) cx' (id * 5 + j))]))
     let dflt ← if (← rnd 2) == 0 then pure none else (fun b => some [Stmt.block b]) <$> genL ((← rnd 2) + 1) (depth - 1) cx' (id * 3 + 3)
-    mk (.switchS (← genE cx 2) cases dflt)
+    -- the default clause anywhere among the cases (the cases after it are still tested first)
+    let dpos ← rnd (ncases + 2)
+    mk (.switchS (← genE cx 2) cases dflt dpos)
 
 def genProg : G (List Stmt) := do
   genL ((← rnd 5) + 3) 3 { vars := [], loops := [], blocks := [], inLoop := false, inSwitch := false } 1
